@@ -110,8 +110,8 @@ def build_harness(variant='asan', parts=('spline', 'ppoly', 'opt'), jobs=None, v
 
 def _prune(keep):
     """drop build directories of other header versions (disk is limited)"""
-    if not os.path.isdir(BUILD):
-        return
+    if not os.path.isdir(BUILD) or os.environ.get('VERIF_OUT'):
+        return          # experiment mode (several trees in flight, possibly concurrently): nothing is removed
     ds = sorted((d for d in glob.glob(os.path.join(BUILD, '*-*')) if os.path.isdir(d)), key=os.path.getmtime)
     variant = os.path.basename(keep).split('-')[0]
     same = [d for d in ds if os.path.basename(d).startswith(variant + '-') and d != keep]
